@@ -16,6 +16,7 @@ import (
 // C15: a long-lived engine renders what a fresh engine would after any file edits.
 
 type c15Case struct {
+	World  string   `json:"world,omitempty"` // "" = page/component/layout contents; "B" = which layout file exists
 	Prefix []string `json:"prefix"`
 	Depth  int      `json:"depth"`
 }
@@ -158,8 +159,179 @@ func c15Involved(entry string) []string {
 	return []string{"page", "comp"}
 }
 
+// ---- world B: which layout file a name resolves to, and whether the default layout exists,
+// changes under a long-lived engine (files are created and deleted; mtimes always advance)
+
+var c15BFiles = []string{"post", "plain", "rel", "lay", "base"}
+var c15BPath = map[string]string{"post": "blog/post.vuego", "plain": "blog/plain.vuego", "rel": "blog/wide.vuego", "lay": "layouts/wide.vuego", "base": "layouts/base.vuego"}
+
+var c15BEvents = []string{"edit:post", "edit:plain", "edit:rel", "edit:lay", "edit:base", "delete:rel", "delete:lay", "delete:base",
+	"render:load:post", "render:load:plain", "render:file:post", "render:file:plain"}
+
+func c15BContent(f string, v int) string {
+	switch f {
+	case "post":
+		return fmt.Sprintf("---\nlayout: wide\n---\n<p>post P%d</p>", v)
+	case "plain":
+		return fmt.Sprintf("<i>plain Q%d</i>", v)
+	case "rel":
+		return fmt.Sprintf(`<section class="rel">R%d<div v-html="content"></div></section>`, v)
+	case "lay":
+		return fmt.Sprintf(`<section class="site">L%d<div v-html="content"></div></section>`, v)
+	case "base":
+		return fmt.Sprintf(`<main>B%d<div v-html="content"></div></main>`, v)
+	}
+	panic(f)
+}
+
+func (c *c15Case) runB(ctx *core.Ctx) {
+	seenStates := map[string]bool{}
+	var rec func(hist []string)
+	rec = func(hist []string) {
+		type fst struct {
+			exists bool
+			ver    int
+			mtime  time.Time
+		}
+		files := map[string]*fst{}
+		m := fstest.MapFS{}
+		sync := func() {
+			for _, f := range c15BFiles {
+				st := files[f]
+				if !st.exists {
+					delete(m, c15BPath[f])
+					continue
+				}
+				m[c15BPath[f]] = &fstest.MapFile{Data: []byte(c15BContent(f, st.ver)), ModTime: st.mtime, Mode: 0o644}
+			}
+		}
+		for _, f := range c15BFiles {
+			files[f] = &fst{exists: true, mtime: baseTime}
+		}
+		sync()
+		nextVer := 1
+		tpl := vuego.NewFS(m)
+		ok := true
+		rendered := ""
+		render := func(t vuego.Template, entry, page string) string {
+			var buf bytes.Buffer
+			var err error
+			if entry == "load" {
+				err = t.Load(c15BPath[page]).Fill(map[string]any{"x": 1}).Render(bg, &buf)
+			} else {
+				err = t.New().RenderFile(bg, &buf, c15BPath[page])
+			}
+			if err != nil {
+				return "ERROR"
+			}
+			return buf.String()
+		}
+		for step, ev := range hist {
+			parts := strings.Split(ev, ":")
+			switch parts[0] {
+			case "edit":
+				st := files[parts[1]]
+				st.exists, st.ver = true, nextVer
+				nextVer++
+				st.mtime = st.mtime.Add(time.Hour)
+				sync()
+			case "delete":
+				if !files[parts[1]].exists {
+					return
+				}
+				files[parts[1]].exists = false
+				sync()
+			case "render":
+				ctx.Eval(2)
+				ctx.Transition(1)
+				got := render(tpl, parts[1], parts[2])
+				want := render(vuego.NewFS(m), parts[1], parts[2])
+				rendered += parts[1] + parts[2] + ","
+				if got != want {
+					ctx.Violation("stale-render", "world-B/entry-"+parts[1]+"/"+parts[2], c15Class(hist[:step+1]), fmt.Sprintf("history %v: long-lived engine rendered %q, fresh engine %q", hist[:step+1], clip(got, 300), clip(want, 300)))
+					ok = false
+				}
+			}
+		}
+		if !ok {
+			return
+		}
+		// canonical state. Versions only advance, so a cached copy of a file is either the current
+		// version or stale; per file: exists now, was it ever seen by a render, is the version seen by
+		// the most recent render that saw it the current one; per render kind: which files existed
+		// at its last occurrence (what that kind resolved to).
+		key := ""
+		{
+			ex := map[string]bool{}
+			ver := map[string]int{}
+			seenVer := map[string]int{}
+			for _, f := range c15BFiles {
+				ex[f], seenVer[f] = true, -1
+			}
+			lastOf := map[string]string{}
+			nv := 1
+			for _, ev := range hist {
+				parts := strings.Split(ev, ":")
+				switch parts[0] {
+				case "edit":
+					ex[parts[1]], ver[parts[1]] = true, nv
+					nv++
+				case "delete":
+					ex[parts[1]] = false
+				case "render":
+					snap := ""
+					// the files this render loads (reference resolution: relative twin before layouts/)
+					loads := []string{"plain", "base"}
+					if parts[2] == "post" {
+						loads = []string{"post", "lay"}
+						if ex["rel"] {
+							loads = []string{"post", "rel"}
+						}
+					}
+					for _, f := range loads {
+						if ex[f] {
+							seenVer[f] = ver[f]
+						}
+					}
+					for _, f := range c15BFiles {
+						snap += fmt.Sprint(ex[f])[:1]
+					}
+					lastOf[parts[1]+parts[2]] = snap
+				}
+			}
+			for _, f := range c15BFiles {
+				key += fmt.Sprintf("%s:%v/%v/%v|", f, ex[f], seenVer[f] >= 0, seenVer[f] == ver[f])
+			}
+			for _, r := range []string{"loadpost", "loadplain", "filepost", "fileplain"} {
+				key += r + "=" + lastOf[r] + "|"
+			}
+		}
+		_ = rendered
+		if seenStates[key] {
+			return
+		}
+		seenStates[key] = true
+		ctx.State(1)
+		if len(hist) >= c.Depth {
+			return
+		}
+		for _, ev := range c15BEvents {
+			if len(hist) > 0 && strings.HasPrefix(ev, "render:") && hist[len(hist)-1] == ev {
+				continue
+			}
+			rec(append(append([]string{}, hist...), ev))
+		}
+	}
+	rec(c.Prefix)
+	ctx.Outcome("B:" + fmt.Sprint(len(seenStates)))
+}
+
 func (c *c15Case) Run(ctx *core.Ctx) {
 	ctx.NonTrivial()
+	if c.World == "B" {
+		c.runB(ctx)
+		return
+	}
 	seenStates := map[string]bool{}
 	var rec func(hist []string)
 	rec = func(hist []string) {
@@ -302,8 +474,9 @@ func init() {
 		ID:    "C15",
 		Level: "model_checking",
 		Rule: "explicit-state search over all histories up to the bound of {edit page/component/layout with an mtime that advances, stays equal or goes back; delete; make invalid (broken front-matter); render through Load().Render, RenderFile, Vue.Render, Vue.RenderFragment} on an in-memory file system with chosen mtimes; each history is replayed on fresh long-lived engines. " +
+			"A second world does the same for layout resolution: a post naming layout `wide` with a relative twin (blog/wide.vuego), a layouts/wide.vuego fallback and layouts/base.vuego, a page without layout; events create/edit/delete each of them and render both pages through Load().Render and RenderFile. " +
 			"oracle: after every render event, bytes/error equal those of newly created engines on the current files (differential, no hand-written expectation). states = distinct (file states, possibly-cached versions); a wrapping fs.FS counts reads to show that cache hits happen. non-trivial = all",
-		Bounds:      map[string]string{"quick": "histories of <=5 events over 19 event kinds", "thorough": "histories of <=6 events"},
+		Bounds:      map[string]string{"quick": "histories of <=5 events over 19 event kinds; layout world: <=6 events over 12 kinds", "thorough": "histories of <=6 events; layout world <=7"},
 		Assumptions: []string{"a render is unconstrained while an involved file has content that differs from what an engine may hold under the same mtime (documented cache limit)", "the cache only sees fs.FS, so an in-memory FS with chosen mtimes covers every answer it can get"},
 		Decode:      core.DecodeAs[c15Case](),
 		Enumerate: func(tier string, emit func(core.Case)) {
@@ -314,6 +487,11 @@ func init() {
 			for _, e1 := range c15Events {
 				for _, e2 := range c15Events {
 					emit(&c15Case{Prefix: []string{e1, e2}, Depth: depth})
+				}
+			}
+			for _, e1 := range c15BEvents {
+				for _, e2 := range c15BEvents {
+					emit(&c15Case{World: "B", Prefix: []string{e1, e2}, Depth: depth + 1})
 				}
 			}
 		},
